@@ -264,8 +264,33 @@ def _returns_ok(stmts) -> bool:
                     if any(isinstance(n, ast.Return) for s in br for n in [s] + list(_walk_own(s))):
                         if not _returns_ok(br) or not _terminates(br):
                             return False
+        elif isinstance(st, (ast.For, ast.While)) and any(isinstance(n, ast.Return) for n in _walk_own(st)):
+            # a search loop: `for ...: if c: return E` followed by statements that do not return a value themselves
+            if st.orelse or not _search_loop_ok(st.body):
+                return False
+            rest = stmts[i + 1:]
+            if not _terminates(rest) or any(isinstance(n, ast.Return) for s_ in rest for n in [s_] + list(_walk_own(s_))):
+                return False
+            return True
         elif any(isinstance(n, ast.Return) for n in _walk_own(st)) and not isinstance(st, FDEFS + (ast.ClassDef,)):
-            return False  # return inside a loop / try / with
+            return False  # return inside try / with
+    return True
+
+
+def _search_loop_ok(body) -> bool:
+    """returns of the loop body are the last statement of an `if` at the top level of the body (no nested loops with returns)"""
+    for st in body:
+        if isinstance(st, ast.Return):
+            return False
+        if isinstance(st, ast.If):
+            for br in (st.body, st.orelse):
+                for k, s_ in enumerate(br):
+                    if isinstance(s_, ast.Return) and k != len(br) - 1:
+                        return False
+                    if not isinstance(s_, ast.Return) and any(isinstance(n, ast.Return) for n in _walk_own(s_)):
+                        return False
+        elif any(isinstance(n, ast.Return) for n in _walk_own(st)):
+            return False
     return True
 
 
@@ -277,6 +302,28 @@ def _assignify(stmts, make_result, fallthrough_none: bool) -> Optional[List[ast.
         rest = stmts[i + 1:]
         if isinstance(st, ast.Return):
             out.extend(make_result(st.value if st.value is not None else ast.Constant(value=None)))
+            return out
+        if isinstance(st, (ast.For, ast.While)) and any(isinstance(n, ast.Return) for n in _walk_own(st)):
+            # search loop: the returns become `deliver; break`, the code after the loop becomes its else branch
+            loop = copy.deepcopy(st)
+
+            def conv(block):
+                new_block = []
+                for s_ in block:
+                    if isinstance(s_, ast.Return):
+                        new_block.extend(make_result(s_.value if s_.value is not None else ast.Constant(value=None)))
+                        new_block.append(ast.copy_location(ast.Break(), s_))
+                    elif isinstance(s_, ast.If):
+                        s_.body = conv(s_.body)
+                        s_.orelse = conv(s_.orelse)
+                        new_block.append(s_)
+                    else:
+                        new_block.append(s_)
+                return new_block
+
+            loop.body = conv(loop.body)
+            loop.orelse = [copy.deepcopy(x) for x in rest]
+            out.append(loop)
             return out
         if isinstance(st, ast.If) and any(isinstance(n, ast.Return) for s in st.body + st.orelse for n in [s] + list(_walk_own(s))):
             body_ret = any(isinstance(n, ast.Return) for s in st.body for n in [s] + list(_walk_own(s)))
@@ -467,11 +514,12 @@ class Inliner:
         """`x = A - helper(args)` -> `t = helper(args); x = A - t` when the helper call is the only call of the statement
         (so nothing that could interfere is evaluated before it)"""
         is_if = isinstance(st, ast.If)
-        if not is_if and (not isinstance(st, (ast.Assign, ast.AnnAssign, ast.AugAssign, ast.Return, ast.Expr)) or getattr(st, "value", None) is None):
+        is_for = isinstance(st, ast.For)
+        if not is_if and not is_for and (not isinstance(st, (ast.Assign, ast.AnnAssign, ast.AugAssign, ast.Return, ast.Expr)) or getattr(st, "value", None) is None):
             return None
-        top = st.test if is_if else st.value
+        top = st.test if is_if else st.iter if is_for else st.value
         calls = [n for n in ast.walk(top) if isinstance(n, ast.Call)]
-        cands = [c for c in calls if (c is not top or is_if) and (h := self._resolve(c, cls)) is not None and not (h.expr is not None and not h.locals) and not h.is_gen]
+        cands = [c for c in calls if (c is not top or is_if or is_for) and (h := self._resolve(c, cls)) is not None and not (h.expr is not None and not h.locals) and not h.is_gen]
         if len(cands) != 1:
             return None
         c = cands[0]
@@ -504,6 +552,8 @@ class Inliner:
         pre = ast.copy_location(ast.Assign(targets=[ast.Name(id=tmp, ctx=ast.Store())], value=c, lineno=st.lineno), st)
         if is_if:
             st.test = R().visit(top)
+        elif is_for:
+            st.iter = R().visit(top)
         else:
             st.value = R().visit(top)
         return [pre, st]
@@ -685,10 +735,56 @@ def _eliminate_aliases(fn):
         return keep
 
     fn.body = scan(fn.body) or [ast.Pass()]
+    # the copy may sit in an inner block of the definition's block (`t__tag = E` ... `if c: x = t__tag; break`): when both names are
+    # bound exactly once and x is not mentioned between the definition and the copy (in execution order of the text), x names t__tag
+    order: List[ast.AST] = []
+
+    def dfs(node):
+        for ch in ast.iter_child_nodes(node):
+            if isinstance(ch, FDEFS + (ast.ClassDef, ast.Lambda)):
+                continue
+            if isinstance(ch, ast.Assign):
+                dfs_node(ch.value)
+                for t_ in ch.targets:
+                    dfs_node(t_)
+                continue
+            dfs_node(ch)
+
+    def dfs_node(ch):
+        if isinstance(ch, ast.Name):
+            order.append(ch)
+        dfs(ch)
+
+    dfs(fn)
+    pos = {id(n): k for k, n in enumerate(order)}
+    for st in [n for n in _walk_own(fn) if isinstance(n, ast.Assign)]:
+        if len(st.targets) == 1 and isinstance(st.targets[0], ast.Name) and isinstance(st.value, ast.Name) and "__" in st.value.id \
+                and binds.get(st.value.id) == 1 and binds.get(st.targets[0].id) == 1 and st.value.id not in ren:
+            tagged, target = st.value.id, st.targets[0].id
+            defs_ = [n for n in order if n.id == tagged and isinstance(n.ctx, ast.Store)]
+            if len(defs_) == 1 and id(st.value) in pos:
+                lo, hi = pos[id(defs_[0])], pos[id(st.value)]
+                if lo < hi and not any(n.id == target for n in order[lo:hi]):
+                    ren[tagged] = target
+                    st.value = ast.copy_location(ast.Name(id=target, ctx=ast.Load()), st.value)  # becomes `x = x`, removed below
     if ren:
         for n in _walk_own(fn):
             if isinstance(n, ast.Name) and n.id in ren:
                 n.id = ren[n.id]
+
+        def drop_self_copies(stmts):
+            out = []
+            for st in stmts:
+                for field in ("body", "orelse", "finalbody"):
+                    sub = getattr(st, field, None)
+                    if isinstance(sub, list) and sub and isinstance(sub[0], ast.stmt) and not isinstance(st, FDEFS + (ast.ClassDef,)):
+                        setattr(st, field, drop_self_copies(sub) or ([ast.copy_location(ast.Pass(), st)] if field == "body" else []))
+                if isinstance(st, ast.Assign) and len(st.targets) == 1 and isinstance(st.targets[0], ast.Name) and isinstance(st.value, ast.Name) and st.value.id == st.targets[0].id:
+                    continue
+                out.append(st)
+            return out
+
+        fn.body = drop_self_copies(fn.body) or [ast.Pass()]
 
 
 # ---------------------------------------------------------------------------------------------------------------------
